@@ -829,6 +829,11 @@ class Spec:
             for name, text, role in ct.raises[alias.get(exc, exc)]:
                 X.assume(self.eval_bool(X, text, env2, closure.module))
             ex.from_contract = ct.qual
+            if 'nraised' in getattr(self, 'ghost_decls', {}):
+                # ghost: how many contract calls have ended with an exception so far
+                if 'nraised' not in X.ghost:
+                    self.havoc_ghost(X, 'nraised')
+                X.ghost['nraised'] = ZV(X.num(X.ghost['nraised']) + 1)
             hook = getattr(ct, 'raise_hooks', {}).get(exc) or getattr(self, 'raise_hooks', {}).get(exc)
             if hook is not None:
                 hook(X, ex, env2)       # ghost bookkeeping of the raised exception
